@@ -87,13 +87,13 @@ type c20Req struct {
 	Key     int64 // identity of the canonical request bytes
 	Label   string
 	// facts by construction
-	IntakeOK                                       bool
+	IntakeOK                                        bool
 	ParseOK, SigOK, SfxOK, DHashOK, DValid, PatchOK bool
-	RevealC, UpdC, RecC                            string
-	DeltaID                                        int64
-	Services                                       bool
-	From, Until                                    int64
-	OriginID                                       int64
+	RevealC, UpdC, RecC                             string
+	DeltaID                                         int64
+	Services                                        bool
+	From, Until                                     int64
+	OriginID                                        int64
 	// filled in at submission
 	Wall        int64
 	Accepted    bool
@@ -133,7 +133,7 @@ func (q *c20Queue) Remove(num uint) (operation.QueuedOperationsAtTime, func() ui
 	return q.inner.Remove(num)
 }
 func (q *c20Queue) Peek(num uint) (operation.QueuedOperationsAtTime, error) { return q.inner.Peek(num) }
-func (q *c20Queue) Len() uint                                              { return q.inner.Len() }
+func (q *c20Queue) Len() uint                                               { return q.inner.Len() }
 
 func (q *c20Queue) content() []int64 {
 	items, _ := q.inner.Peek(q.inner.Len())
